@@ -28,7 +28,7 @@ fn registry() -> Vec<Property> {
         props_hist::c03::property(),
         props_hist::c05::property(),
         props_hist::c09::property(),
-        with_sub(props_hist::c17::property(), bigworld::sub()),
+        props_conc::c17_subs().into_iter().fold(with_sub(props_hist::c17::property(), bigworld::sub()), with_sub),
         props_seq::c04(),
         props_join::c06(),
         props_join::c07(),
@@ -80,6 +80,28 @@ fn main() {
         "worker" if args.len() >= 9 => engine::worker_main(find(&args[1]), &args[2..]),
         "transcript" if args.len() >= 3 => props_det::transcript_main(&args[1], &args[2]),
         "replay" if args.len() >= 3 => engine::replay_main(find(&args[1]), &args[2]),
+        // development aid: run one saved case n times in this process and report the resident set
+        "leak" if args.len() >= 4 => {
+            let p = find(&args[1]);
+            let v: serde_json::Value = serde_json::from_str(&std::fs::read_to_string(&args[2]).expect("file")).expect("json");
+            let sub = p.subs.iter().find(|s| v["check"] == s.name).unwrap_or(&p.subs[0]);
+            engine::install_panic_hook();
+            let n: usize = args[3].parse().unwrap_or(10);
+            for i in 0..n {
+                if args[1] == "C19" && v["case"].is_array() {
+                    let (seq, at): (stoseq::SeqCase, usize) = serde_json::from_value(v["case"].clone()).expect("proto");
+                    let mut st = engine::Stats::default();
+                    let r = props_seq::c19_proto(&seq, &at, &mut st); if i == 0 { println!("first result: {:?} labels {:?}", r.as_ref().err().map(|v| &v.msg), st.labels); }
+                } else {
+                    let _ = (sub.replay)(&v["case"]);
+                }
+                let pages: u64 = std::fs::read_to_string("/proc/self/statm").ok().and_then(|t| t.split_whitespace().nth(1).and_then(|x| x.parse().ok())).unwrap_or(0);
+                if i % (n / 10).max(1) == 0 {
+                    println!("iteration {}: RSS {} MiB", i, pages * 4096 / (1 << 20));
+                }
+            }
+            0
+        }
         _ => usage(),
     };
     std::process::exit(code);
